@@ -424,6 +424,21 @@ func replayOne(p Property, c *Ctx, path string) bool {
 		fmt.Fprintf(os.Stderr, "harness: %v\n", err)
 		return false
 	}
+	if lim, ok := p.(interface{ HangLimit() time.Duration }); ok {
+		// a replayed case can loop like any other: without this the orchestrator's timeout would be the only way out,
+		// and a hang could not be told from trouble
+		d := lim.HangLimit()
+		if v := envInt("VERIF_HANG_LIMIT", 0); v > 0 {
+			d = time.Duration(v) * time.Second
+		}
+		go func() {
+			time.Sleep(d)
+			jb, _ := json.Marshal(map[string]any{"property": p.ID(), "violated": true, "key": p.ID() + ":hang",
+				"msg": fmt.Sprintf("the replayed case did not finish within %v: the library loops", d)})
+			_ = os.WriteFile(os.Getenv("VERIF_OUT"), jb, 0o664)
+			os.Exit(0)
+		}()
+	}
 	var out Outcome
 	if rp, ok := p.(interface{ RunReplay(c *Ctx, cs any) Outcome }); ok {
 		out = rp.RunReplay(c, cs)
